@@ -11,6 +11,7 @@ import (
 	"fmt"
 	"math/bits"
 	"os"
+	"strings"
 	"testing"
 
 	"github.com/alicebob/sqlittle"
@@ -520,12 +521,12 @@ func checkReal(r *vt.Run, t vt.TB, s realSpec) {
 	}
 	res, err := env.Create("c15", path, s.PageSize, 0, stmts)
 	sqdb.MustOK(r, t, "build "+s.Kind, res, err, len(stmts)+2)
-	if s.Kind != "wal-open" && s.Kind != "switch-to-wal" {
+	if s.Kind != "wal-open" && !strings.HasPrefix(s.Kind, "switch-to-wal") {
 		env.O.Close("c15")
 	}
 	defer env.O.Close("c15")
-	wantReject := s.Kind != "utf8" && s.Kind != "switch-to-wal"
-	r.Case(s, wantReject || s.Kind == "switch-to-wal", "real:"+s.Kind)
+	wantReject := s.Kind != "utf8" && !strings.HasPrefix(s.Kind, "switch-to-wal")
+	r.Case(s, wantReject || strings.HasPrefix(s.Kind, "switch-to-wal"), "real:"+s.Kind)
 	read := func(db *sqlittle.DB) (rows []string, err error) {
 		err = db.Select("t", func(row sqlittle.Row) { rows = append(rows, fmt.Sprint([]interface{}(row))) }, "a", "b")
 		// (tables and indexes without any row: empty root pages)
@@ -557,6 +558,46 @@ func checkReal(r *vt.Run, t vt.TB, s realSpec) {
 	if err != nil || len(rows) != 3 {
 		r.Violation(t, s, "real:rejected:"+s.Kind, "plain database: %d rows, err %v", len(rows), err)
 		return
+	}
+	if s.Kind == "switch-to-wal-two-handles" {
+		// two long-lived handles of this process whose read transactions
+		// overlapped (the second ran inside a row callback of the first, so it
+		// was not the last of the process to unlock); then SQLite switches the
+		// file to WAL: both have to see the new header at their next read
+		db2, err := sqlittle.Open(path)
+		if err != nil {
+			r.Harness(t, "second open: %v", err)
+		}
+		defer db2.Close()
+		var inner []string
+		var ierr error
+		nested := false
+		oerr := db.Select("t", func(sqlittle.Row) {
+			if !nested {
+				nested = true
+				inner, ierr = read(db2)
+			}
+		}, "a")
+		if oerr != nil || ierr != nil || len(inner) != 3 {
+			r.Violation(t, s, "real:rejected:"+s.Kind, "plain database, a read on a second handle from inside a row callback of the first: %d rows, err %v / %v", len(inner), ierr, oerr)
+			return
+		}
+		res, err := env.O.Script("c15", []oracle.Stmt{{SQL: "PRAGMA journal_mode=WAL", Fetch: true}, {SQL: "INSERT INTO t VALUES (4, 'only in the WAL')"}}, true)
+		sqdb.MustOK(r, t, "switch to wal", res, err, 2)
+		if len(res[0].Rows) != 1 || string(res[0].Rows[0][0].B) != "wal" {
+			r.Harness(t, "journal_mode=WAL not taken: %v", res[0].Rows)
+		}
+		for i, h := range []*sqlittle.DB{db2, db} {
+			rows, err := read(h)
+			which := []string{"the handle that read inside the other's row callback", "the handle whose row callback it was"}[i]
+			if err == nil {
+				r.Violation(t, s, "real:accepted:"+s.Kind, "file switched to WAL under two open handles of this process; the next read on %s returns %v without error", which, rows)
+				return
+			} else if len(rows) > 0 {
+				r.Violation(t, s, "real:rows:"+s.Kind, "file switched to WAL under two open handles; %s: error %v but rows %v", which, err, rows)
+				return
+			}
+		}
 	}
 	if s.Kind == "switch-to-wal" {
 		// SQLite switches the file to WAL while our handle stays open
@@ -596,7 +637,7 @@ func TestC15RealEnum(t *testing.T) {
 		return
 	}
 	for _, ps := range []int{512, 1024, 4096, 65536} {
-		for _, k := range []string{"utf8", "wal-open", "wal-closed", "utf16le", "utf16be", "switch-to-wal"} {
+		for _, k := range []string{"utf8", "wal-open", "wal-closed", "utf16le", "utf16be", "switch-to-wal", "switch-to-wal-two-handles"} {
 			checkReal(r, t, realSpec{k, ps})
 		}
 	}
